@@ -313,3 +313,41 @@ def run_c02(c):
             add("c:dtw.distance_fast[psi-int]", lambda: dtw.distance_fast(a_n, b_n, **settings(c, psi_int=True)))
     add("native:dtw_distance" + ("_ndim" if use_ndim else ""), lambda: _native_dist(c))
     return {"id": c["id"], "routes": routes, "obs": obs}
+
+
+# ---------------------------------------------------------------------------------------------
+# C03: thresholds (max_dist) and pruning through every distance-returning routine of both engines
+def run_c03(c):
+    from dtaidistance import dtw, dtw_ndim
+    nd = ndim_of(c)
+    use_ndim = nd > 1
+    routes, obs = [], []
+
+    def add(name, fn):
+        routes.append(name)
+        obs.append(enc_guarded(c, fn))
+
+    kw = settings(c)
+    a_n, b_n = series(c, "s1", "numpy"), series(c, "s2", "numpy")
+    if use_ndim:
+        kwn = {k: v for k, v in kw.items() if k != "use_ndim"}
+        add("py:dtw_ndim.distance", lambda: dtw_ndim.distance(a_n, b_n, **kwn))
+        add("c:dtw_ndim.distance_fast", lambda: dtw_ndim.distance_fast(a_n, b_n, **kwn))
+        add("py:dtw_ndim.warping_paths", lambda: dtw_ndim.warping_paths(a_n, b_n, **kwn)[0])
+        add("c:dtw_ndim.warping_paths_fast", lambda: dtw_ndim.warping_paths_fast(a_n, b_n, **kwn)[0])
+        add("py:dtw_ndim.distance_matrix",
+            lambda: dtw_ndim.distance_matrix([a_n, b_n], compact=True, **kwn)[0])
+        add("c:dtw_ndim.distance_matrix[use_c]",
+            lambda: dtw_ndim.distance_matrix([a_n, b_n], compact=True, use_c=True, **kwn)[0])
+    else:
+        a_l, b_l = series(c, "s1", "list"), series(c, "s2", "list")
+        add("py:dtw.distance", lambda: dtw.distance(a_l, b_l, **kw))
+        add("c:dtw.distance_fast", lambda: dtw.distance_fast(a_n, b_n, **kw))
+        add("py:dtw.warping_paths", lambda: dtw.warping_paths(a_n, b_n, **kw)[0])
+        add("c:dtw.warping_paths_fast", lambda: dtw.warping_paths_fast(a_n, b_n, **kw)[0])
+        add("c:dtw.warping_paths_fast[compact]", lambda: dtw.warping_paths_fast(a_n, b_n, compact=True, **kw)[0])
+        add("py:dtw.distance_matrix", lambda: dtw.distance_matrix([a_l, b_l], compact=True, **kw)[0])
+        add("c:dtw.distance_matrix_fast",
+            lambda: dtw.distance_matrix_fast([a_n, b_n], parallel=False, compact=True, **kw)[0])
+        add("native:dtw_distance", lambda: _native_dist(c))
+    return {"id": c["id"], "routes": routes, "obs": obs}
